@@ -165,7 +165,8 @@ func RunCfgs(args []string) int {
 	defer f.Close()
 	w := bufio.NewWriterSize(f, 1<<20)
 	defer w.Flush()
-	tokens := []string{"tok", "two words", ":lead", "a:b :c", "", strings.Repeat("T", 400), "12345678"}
+	tokens := []string{"tok", "two words", ":lead", "a:b :c", "", strings.Repeat("T", 400), "12345678",
+		"trailing blank ", "tab\t", " ", " leading blank", "two  blanks"}
 	n, ssl := 0, 0
 	var sample interface{}
 	in := bufio.NewReaderSize(os.Stdin, 1<<20)
